@@ -43,8 +43,8 @@ USE_REACH = True
 STRIDES = {"quick": 1, "thorough": 16}
 QUICK_STRIDES = {"polygon ^ polygon (crossing)": 10, "polygon - polygon (crossing)": 5, "connected & simple (contained)": 4,
                  "polygon & polygon (crossing)": 4, "copy of disjoint": 3, "polygon == rotated polygon": 2, "simple | connected (contained)": 3}
-QUICK_SAMPLE = 50
-PROBE_EVERY = {"quick": 25, "thorough": 6}
+QUICK_SAMPLE = 30
+PROBE_EVERY = {"quick": 40, "thorough": 6}
 LINE_FUNCTIONS = (
     "SimpleShape._contains_shape", "JordanCurve.invert", "JordanCurve.split",
     "JordanCurve.__split_segment", "JordanCurve.segments", "FollowPath.split_two_jordans",
@@ -257,7 +257,7 @@ def enumerate_op(case, ctx, opname, build, run, mode, stride, offset, sample=Non
         if cold:
             # only the boundaries inside the functions that fill the module-level memo tables
             ks = [k for k in range(1, total + 1) if sites[k - 1][0] in MEMO_FUNCTIONS]
-            sample = 40 if ctx.tier == "quick" else None
+            sample = 25 if ctx.tier == "quick" else None
         if sample == "auto":
             # thorough: every boundary of operations with up to ~8000 boundaries; beyond that, per
             # stride, the first occurrence of every site plus 400 sampled boundaries
